@@ -35,6 +35,7 @@ sub!(c02, "c02.rs");
 sub!(c15, "c15.rs");
 sub!(c17, "c17.rs");
 sub!(c06, "c06.rs");
+sub!(relay, "relay.rs");
 
 pub async fn main() -> Result<(), easy_error::Terminator> {
     let args: Vec<String> = std::env::args().collect();
@@ -57,6 +58,8 @@ pub async fn main() -> Result<(), easy_error::Terminator> {
         "c15" => c15::run(&mut out).await,
         "c17" => c17::run(&mut out).await,
         "c06" => c06::run(&mut out).await,
+        "c01" => relay::run_c01(&mut out).await,
+        "c04" => relay::run_c04(&mut out).await,
         _ => {
             eprintln!("unknown mode {}", mode);
             std::process::exit(2);
